@@ -3,6 +3,8 @@ from __future__ import annotations
 
 import ctypes
 import json
+
+from . import node_abi
 from ctypes import (CFUNCTYPE, POINTER, c_char_p, c_double, c_int, c_long, c_void_p, create_string_buffer)
 
 
@@ -23,7 +25,7 @@ class HarnessBug(Exception):
 SEAM_CB = CFUNCTYPE(c_long, c_int, c_long, c_long, c_long)
 
 
-class Node:
+class Node(node_abi.Mixin):
     def __init__(self, path: str):
         self.path = path
         self.lib = L = ctypes.CDLL(path, mode=ctypes.RTLD_GLOBAL)
@@ -58,7 +60,6 @@ class Node:
         self._declare_more(sig)
 
     def _declare_more(self, sig):
-        from . import node_abi
         node_abi.declare(self, sig)
 
     # ------------------------------------------------------------------ errors
@@ -76,7 +77,7 @@ class Node:
         raise NodeError(e[0], e[1])
 
     # ------------------------------------------------------------------ text helper
-    def text(self, fn, *args):
+    def text_call(self, fn, *args):
         """fn(*args, buf, cap) -> needed length or -1."""
         n = fn(*args, self._buf, len(self._buf))
         if n < 0:
@@ -132,10 +133,10 @@ class Node:
         return f
 
     def fm_state(self, h):
-        return json.loads(self.text(self.lib.aws_fm_state, h))
+        return json.loads(self.text_call(self.lib.aws_fm_state, h))
 
     def fm_decompiled(self, h) -> bytes:
-        return self.text(self.lib.aws_fm_decompiled, h)
+        return self.text_call(self.lib.aws_fm_decompiled, h)
 
     def fm_text(self, h, what) -> bytes:
-        return self.text(self.lib.aws_fm_text, h, what)
+        return self.text_call(self.lib.aws_fm_text, h, what)
